@@ -9,6 +9,7 @@ import (
 
 	"verif/sim/netsim"
 	"verif/sim/prng"
+	"verif/sim/scripted"
 
 	tss "github.com/IBM/TSS/types"
 )
@@ -55,6 +56,9 @@ func genC10(seed uint64, tier string) C10Cfg {
 	}
 	s.Signers = ids
 	s.CallTimeoutMs = 10000 + r.Intn(3000)
+	if rd := prng.Derive(seed, "real-init-delay"); backend != "scripted" && rd.Bool(0.4) {
+		s.Deploy.RealInitDelayMs = rd.Range(1, 40)
+	}
 	c := C10Cfg{Sess: s, Mode: pickStr(r, []string{"foreign", "participant"}), Budget: r.Range(20, 160), Outsider: out, Unknown: uint16(300 + r.Intn(60000)), Entry: r.Bool(0.15)}
 	return c
 }
@@ -83,8 +87,25 @@ func garbage(seed uint64, ord int, w *netsim.World, cfg C10Cfg, sessTopic []byte
 		}
 	}
 	typ, topic, data = tmpl.Type, append([]byte(nil), tmpl.Topic...), append([]byte(nil), tmpl.Data...)
-	muts := []string{"truncate", "truncate", "truncate", "extend", "empty", "nil", "type", "topic", "ackfield", "firstbyte", "secondbyte", "random", "flip", "synctail", "bigview", "syncvalid", "syncvalid"}
+	muts := []string{"truncate", "truncate", "truncate", "extend", "empty", "nil", "type", "topic", "ackfield", "firstbyte", "secondbyte", "random", "flip", "synctail", "bigview", "syncvalid", "syncvalid", "protovalid"}
 	kind = muts[r.Intn(len(muts))]
+	if kind == "protovalid" && cfg.Mode == "foreign" {
+		kind = "flip"
+	}
+	if kind == "protovalid" {
+		// a protocol message of a participant that is well-formed as far as the transport and the classifier can
+		// tell (a point-to-point message of the first kind, e.g. a key share), sent when nothing of the kind is
+		// expected yet - or any more
+		from = invokers[r.Intn(len(invokers))]
+		for from == to {
+			from = invokers[r.Intn(len(invokers))]
+		}
+		body := append([]byte{1}, r.Bytes(32)...)
+		if cfg.Sess.Deploy.Backend == "scripted" {
+			body = scripted.Encode(cfg.Sess.Deploy.SP.RoundBase, false, from, uint16(9000+ord), r.Bytes(8))
+		}
+		return from, to, uint8(tss.MsgTypeMPC), sessTopic, EncodePayload(body), kind
+	}
 	if kind == "syncvalid" && cfg.Mode == "foreign" {
 		// a configured member can always keep the membership synchronisation from completing (it may simply announce
 		// itself), so well-formed synchroniser traffic is session traffic even when it comes from a non-participant
